@@ -26,7 +26,7 @@ class TranslationError(Exception):
     pass
 
 GV_PI_DOUBLE = Fraction(884279719003555, 2 ** 48)      # the binary64 nearest to pi (what GV_PI evaluates to)
-WATCHED = ['getMaxNDim', 'getMinOrder', 'hasParam', 'getParMax', 'getScadef', 'hasRange', 'getCovName',
+WATCHED = ['getMaxNDim', 'getMinOrder', 'hasParam', 'getParMax', 'getParMin', 'getScadef', 'hasRange', 'getCovName',
            'getCompatibleSpaceR', 'getCompatibleSpaceS', 'hasCovOnRn', '_evaluateCov']
 
 def strip_comments(s):
@@ -376,6 +376,13 @@ def translate(repo):
         elif pm[0] == 'macro' and pm[1] == 'MAX_PARAM': e['parmax'] = ('num', Fraction(1000))
         elif pm[0] == 'macro' and pm[1] == 'TEST': e['parmax'] = ('unbounded', None)
         else: raise TranslationError('%s: getParMax = %r' % (cls, pm))
+        # lower bound of the third parameter (fix C03_8): absent = 0, or the dimension-dependent bound of the J-Bessel family
+        if 'getParMin' in inl:
+            nb = re.sub(r'\s+', '', inl['getParMin'])
+            if nb == 'returnMAX(0.,((double)getContext().getNDim()-2.)/2.);': e['parmin_dim'] = True
+            else: raise TranslationError('%s: getParMin of unknown form: %s' % (cls, nb))
+        elif 'getParMin' in decl: raise TranslationError('%s::getParMin is defined out of line' % cls)
+        else: e['parmin_dim'] = False
         hr = get('hasRange')
         if hr[0] != 'num' or hr[1] not in (-1, 0, 1): raise TranslationError('%s: hasRange = %r' % (cls, hr))
         e['hasrange'] = int(hr[1])
@@ -433,12 +440,12 @@ def render(entries, gens, isc, space_checked=False, guards_dimension=False):
         pm = 'PMmax %s' % qlit(pv) if pk == 'num' else 'PMunbounded'
         sh = {'poly': 'ShPoly', 'opaque': 'ShOpaque', 'none': 'ShNone'}[e['shape']]
         rows.append('  {| ce_name := %s; ce_class := %s; ce_code := %d; ce_maxdim := %s; ce_minorder := %d;\n'
-                    '     ce_hasparam := %s; ce_parmax := %s; ce_scadef := %s; ce_hasrange := %d;\n'
+                    '     ce_hasparam := %s; ce_parmax := %s; ce_parmin_dim := %s; ce_scadef := %s; ce_hasrange := %d;\n'
                     '     ce_spaceR := %s; ce_spaceS := %s; ce_onRn := %s; ce_haseval := %s; ce_support := %s;\n'
                     '     ce_shape := %s; ce_hash := %d |}' % (
             coq_str(e['name']), coq_str(e['class']), e['code'],
             'None' if e['maxdim'] is None else 'Some %d%%nat' % e['maxdim'], e['minorder'],
-            coq_bool(e['hasparam']), pm, sc, e['hasrange'], coq_bool(e['spaceR']), coq_bool(e['spaceS']),
+            coq_bool(e['hasparam']), pm, coq_bool(e['parmin_dim']), sc, e['hasrange'], coq_bool(e['spaceR']), coq_bool(e['spaceS']),
             coq_bool(e['onRn']), coq_bool(e['haseval']), coq_optq(e['support']), sh, e['hash']))
     L.append(';\n'.join(rows))
     L.append('].')
